@@ -11,7 +11,7 @@ H = Harness("C05", ["OQ.Gen.NamesGen", "OQ.Serde.Json", "OQ.Serde.CircuitSerde",
             "kinds: rt = one circuit (built-in gates with float/int/symbol/expression/indexed-symbol parameters, custom gates with "
             "symbolic matrices, wrapper nestings controlled/dagger/power/exponential to depth 5-7 by raw constructors or the "
             ".controlled/.dagger/.power/.exp methods, shuffled qubit indices, idle qubits, empty circuits) through to_dict, "
-            "json.dumps/loads, circuit_from_dict, and save_circuit/load_circuit via StringIO or a temp file; set = circuit lists; "
+            "json.dumps/loads, circuit_from_dict, and save_circuit/load_circuit via StringIO or a temp file; set = circuit lists, half of them with the same custom gate name defined differently (or equally) in several circuits; "
             "conflict = two different definitions under one name; collide = custom gate named like a module global; f16 = x with "
             "x[k] in one gate; mangle = valid dictionaries with one key removed/changed (error branches); names = generated table vs "
             "vars(_builtin_gates). Compared in Coq: model to_dict = Python's JSON tree, model from_dict(Python's JSON) = structure of "
@@ -429,9 +429,42 @@ def gen(rng, tier):
             ds = gen_defs(rng)
             yield dict(kind="rt", defs=ds, circuits=[gen_circuit(rng, ds)], smart=smart, seed=seed, file=rng.choice(["io", "io", "tmp"]))
         elif r < 0.69:
-            ds = gen_defs(rng)
-            yield dict(kind="set", defs=ds, circuits=[gen_circuit(rng, ds) for _ in range(rng.randint(0, 3))], smart=smart, seed=seed,
-                       file=rng.choice(["io", "tmp"]))
+            if rng.random() < 0.5:
+                ds = gen_defs(rng)
+                yield dict(kind="set", defs=ds, circuits=[gen_circuit(rng, ds) for _ in range(rng.randint(0, 3))], smart=smart, seed=seed,
+                           file=rng.choice(["io", "tmp"]))
+            else:
+                # name uniqueness is per circuit: the same custom gate name in several circuits of one list, with different
+                # definitions (matrix, params_ordering, arity, width) or - as a control - with an equal one
+                names = rng.sample(DEFNAMES[:6], rng.choice([1, 1, 2]))
+                ds, circuits, per_name = {}, [], {n: [] for n in names}
+                for ci in range(rng.randint(2, 4)):
+                    mine = {}
+                    for n in names:
+                        if per_name[n] and rng.random() < 0.25:
+                            d = json.loads(json.dumps(rng.choice(per_name[n])))       # equal definition, distinct object
+                        elif per_name[n] and rng.random() < 0.3:
+                            d = json.loads(json.dumps(rng.choice(per_name[n])))       # same shape, one entry differs
+                            i, j = rng.randrange(len(d["matrix"])), rng.randrange(len(d["matrix"]))
+                            d["matrix"][i][j] = ["add", d["matrix"][i][j], ["int", rng.randint(1, 7)]]
+                        else:
+                            d = gen_def(rng, n)
+                        if rng.random() < 0.85 or not mine:
+                            per_name[n].append(d)
+                            mine[f"c{ci}d{len(mine)}"] = d
+                    c = gen_circuit(rng, mine, nops=rng.randint(0, 2))
+                    for key, d in mine.items():                                        # every definition is used at least once
+                        syms = pick_syms(rng, rng.randint(0, 2))
+                        g, nq = ["U", key, [gen_param(rng, syms, False) for _ in d["params"]]], d["nq"]
+                        w = rng.random()
+                        if w < 0.25: g = ["D", g]
+                        elif w < 0.45: g, nq = ["C", ["D", g], 1], nq + 1
+                        qs = rng.sample(range(nq + rng.randint(0, 2)), nq)
+                        c["ops"].insert(rng.randint(0, len(c["ops"])), [g, qs])
+                        if c["n"] is not None: c["n"] = max(c["n"], max(qs) + 1)
+                    ds.update(mine)
+                    circuits.append(c)
+                yield dict(kind="set", shared=True, defs=ds, circuits=circuits, smart=smart, seed=seed, file=rng.choice(["io", "tmp"]))
         elif r < 0.73:
             ds = gen_defs(rng, 2)
             keys = sorted(ds)
@@ -677,7 +710,8 @@ def run_case(inp):
             ok, msg = False, f"load_circuit gave a different circuit than circuit_from_dict: {back}"
     if not inside and not sig:
         ok, msg = True, ""                    # custom gate named like a module global: outside the property's quantifier
-    label = kind + ("-smart" if inp["smart"] and kind == "rt" else "") + ("" if st2 == "ok" else "-unreadable")
+    label = kind + ("-smart" if inp["smart"] and kind == "rt" else "") + ("-shared-names" if inp.get("shared") else "") \
+        + ("" if st2 == "ok" else "-unreadable")
     return dict(chk=chk, oracle_ok=ok, oracle_msg=msg, kind=label, nontrivial=nontriv, sig=sig)
 
 # ----------------------------------------------------------------------------- witnesses of recorded findings
